@@ -438,7 +438,9 @@ def apalache_inductive(c, spec_dir, module, obligations, statement, timeout=600)
     ok, notes = 0, []
     outdir = os.path.join(c.dir, "apalache_" + module)
     for args in obligations:
-        r = sh(["timeout", str(timeout), "apalache-mc", "check", "--out-dir=" + outdir] + list(args) + [module + ".tla"], cwd=spec_dir, timeout=timeout + 60)
+        os.makedirs(outdir, exist_ok=True)
+        r = sh(["timeout", str(timeout), "apalache-mc", "check", "--out-dir=" + outdir] + list(args) + [module + ".tla"], cwd=spec_dir, timeout=timeout + 60,
+               env={"TMPDIR": outdir})        # (the wrapper script makes its SANY scratch directory with mktemp -t)
         out = r.stdout or ""
         if "The outcome is: NoError" in out:
             ok += 1
